@@ -152,6 +152,9 @@ class Interp:
         q, loc = self.where(node)
         ev = {"kind": kind, "function": q, "loc": loc, "text": norm_text(node) if node is not None else ""}
         ev.update(data)
+        if kind in ("raise", "may_raise_in_loop") and "loops" not in ev and hasattr(self.ops, "loop_ids"):
+            ev["loops"] = list(self.ops.loop_ids)  # (pipeline runs) where in the loop nest the raise sits, and after which numbered events
+            ev["after_seq"] = getattr(self.ops, "seq", 0)
         self.trace.events.append(ev)
 
     def unknown(self, why: str, node=None) -> Unk:
@@ -452,6 +455,9 @@ class Interp:
                 if len(v.items) == n:
                     return list(v.items)
                 return [self.unknown(f"unpack arity {len(v.items)} != {n}", node)] * n
+            r = self.ops.unpack_list(v, n, node)
+            if r is not None:
+                return r
             return [v.elem] * n
         if isinstance(v, ObjV) and getattr(v, "tuple_fields", None) and len(v.tuple_fields) == n:
             return [v.fields.get(f, Unk(f"field {f}")) for f in v.tuple_fields]  # NamedTuple instance
@@ -959,6 +965,11 @@ class Interp:
             return out
 
     def e_Set(self, n, env):
+        if any(isinstance(e, ast.Starred) for e in n.elts):
+            try:
+                return self.ops.make_set(self._elts(n.elts, env), n)  # {*xs, y} with concrete xs
+            except _AbstractDisplay:
+                return self.unknown("set display with a starred abstract sequence", n)
         return self.ops.make_set([self.eval(e, env) for e in n.elts], n)
 
     def _elts(self, elts, env):
